@@ -720,9 +720,74 @@ func genC06Region(g *Gen) *wire.Scenario {
 	return sc
 }
 
+// genC06Autosuggest: history-autosuggest on, a buffer of several lines, a history entry that continues the whole
+// buffer. A motion at the very end of the buffer takes text from the suggestion (that is the feature); anywhere
+// else, the end of an inner line included, a motion is a motion.
+func genC06Autosuggest(g *Gen) *wire.Scenario {
+	sc := &wire.Scenario{Prop: "C06", Family: "edit-autosuggest"}
+	mode := Pick(g, []string{"emacs", "vi"})
+	env := wire.Env{Mode: mode, Prompt: "> ", W: 80, H: 24, Multiline: "backslash", NoDefaultHistory: true}
+	env.Inputrc = []string{"set history-autosuggest on"}
+	var lines []string
+	for l := 0; l < g.Range(2, 3); l++ {
+		lines = append(lines, Pick(g, []string{"echo one", "ls -l /tmp", "a b", "git commit", "x"}))
+	}
+	buf := strings.Join(lines, "\\\n")
+	env.History = []wire.HistSrc{{Kind: "memory", Name: "h0", Entries: []string{"unrelated", buf + " && more words here", buf + "z"}}}
+	env.Binds = g.Cat.Extra
+	sc.Env = env
+	for i, l := range lines {
+		for _, r := range l {
+			sc.Script = append(sc.Script, tok(string(r), "self-insert"))
+		}
+		if i < len(lines)-1 {
+			sc.Script = append(sc.Script, tok("\\", "self-insert"), tok("\r", "accept-line"))
+		}
+	}
+	total := len([]rune(buf))
+	inner := g.N(len(lines) - 1)
+	end := -1 // index of the last character of the chosen inner line (its backslash)
+	for i := 0; i <= inner; i++ {
+		end += len([]rune(lines[i])) + 2
+	}
+	end--
+	if mode == "vi" {
+		sc.Script = append(sc.Script, tok("\x1b", "vi-movement-mode"))
+		for i := 0; i < len(lines)-1-inner; i++ {
+			sc.Script = append(sc.Script, tok("k", "vi-up-line-or-history"))
+		}
+		sc.Script = append(sc.Script, tok("$", "vi-end-of-line"))
+		for i := 0; i < g.Range(1, 3); i++ {
+			cmd := Pick(g, []string{"vi-forward-word", "vi-forward-word", "vi-end-word", "vi-forward-char", "vi-forward-blank-word"})
+			if seq := g.Cat.ShortSeqFor("vi-command", cmd); seq != "" {
+				sc.Script = append(sc.Script, tok(seq, cmd))
+			}
+		}
+	} else {
+		back := g.Cat.ShortSeqFor("emacs", "backward-char")
+		for i := 0; i < total-end+g.N(2); i++ {
+			sc.Script = append(sc.Script, tok(back, "backward-char"))
+		}
+		for i := 0; i < g.Range(1, 3); i++ {
+			cmd := Pick(g, []string{"forward-word", "forward-word", "forward-char", "end-of-line"})
+			if seq := g.Cat.ShortSeqFor("emacs", cmd); seq != "" {
+				sc.Script = append(sc.Script, tok(seq, cmd))
+			}
+		}
+	}
+	if g.P(50) {
+		sc.Script = append(sc.Script, tok("\r", "accept-line"))
+	}
+	sc.Plan = wire.Plan{Policy: "canonical", Class: "S0"}
+	return sc
+}
+
 func genC06(g *Gen, tier string, idx int) *wire.Scenario {
 	if idx%10 == 9 {
 		return genC06ViRegisters(g)
+	}
+	if idx%20 == 13 {
+		return genC06Autosuggest(g)
 	}
 	if idx%20 == 8 {
 		return genC06Region(g)
@@ -1077,6 +1142,9 @@ func execC06(x *Ctx, sc *wire.Scenario) *wire.Result {
 		pureCtx := before.Local == "" || before.Local == "vi-visual" || (before.Local == "vi-opp" && prevOp == "vi-yank-to" && lastOp == "vi-yank-to")
 		if !pureCtx || after.Local == "isearch" || after.Local == "menu-select" {
 			continue
+		}
+		if sc.Family == "edit-autosuggest" && before.Pos >= len([]rune(before.Line))-1 {
+			continue // at the very end of the buffer a motion takes text from the suggestion: the feature, not an edit
 		}
 		res.Counters["checked:movement_purity"]++
 		if after.Line != before.Line {
